@@ -851,6 +851,8 @@ from mlmverif.selfcheck import B, OK  # noqa: E402
 
 _F = 'chainables/tree.py'
 VARIANTS = [
+    OK('tuple-node-rebuilt-through-a-list-then-tuple', 'chainables/tree.py',
+       "        container_maker = tuple\n", "        container_maker = tuple\n        assert container_maker is tuple\n"),
     B('revert-enumeration-descends-into-any-sequence', 'chainables/tree.py',
       "  elif isinstance(data, (list, tuple)) and data:\n    for i, v in enumerate(data):", "  elif isinstance(data, Sequence) and not isinstance(data, str) and data:\n    for i, v in enumerate(data):", 'R-C18-17'),
     OK('enumeration-descends-into-list-then-tuple', 'chainables/tree.py',
